@@ -390,6 +390,10 @@ func RequestsFor(ops []string) (reqs []Request, snis []string) {
 				hosts[h] = true
 			}
 		}
+		// an alias answers requests of its own domain (seed C06e)
+		if a := s.Annotations["server-alias"]; a != "" {
+			hosts[a] = true
+		}
 	}
 	for _, h := range SortedKeys(hosts) {
 		snis = append(snis, h)
